@@ -291,7 +291,7 @@ func nontrivial(p *Prog) bool {
 	k := opKinds(p)
 	n := 0
 	for _, s := range []string{"expr:adr", "expr:sl", "expr:new", "op:app", "op:apps", "op:cp", "op:ms", "op:call", "op:mul", "op:capture",
-		"op:range", "expr:id", "op:muld", "op:lk2", "op:rcv", "op:as2", "op:clit"} {
+		"op:range", "expr:id", "op:muld", "op:lk2", "op:rcv", "op:as2", "op:clit", "op:cnm", "op:rsw"} {
 		if k[s] {
 			n++
 		}
